@@ -623,19 +623,23 @@ class G:
 
     # ---- exceptions (C09) --------------------------------------------------------------------------
     def fault_stmt(self):
+        """returns (statement, is_thrown_exception_with_known_message)"""
         rng = self.rng
         k = rng.random()
-        if k < 0.3:
-            return Throw('异常', [Str('误%d' % self.fresh())])
-        if k < 0.45:
-            return ExprS(Call('显示', [Bin('/', Num('1'), Num('0'))]))
-        if k < 0.6:
-            return ExprS(Call('显示', [Index(Arr([Num('1')]), Num('5'))]))
-        if k < 0.72:
-            return ExprS(Call('显示', [Var('未定名')]))
-        if k < 0.86:
-            return Throw('自定错', [Str('文%d' % self.fresh())])
-        return ExprS(MCall(Num('1'), [('无此法', [])]))
+        if k < 0.25:
+            return Throw('异常', [Str('误%d' % self.fresh())]), True
+        if k < 0.37:
+            return ExprS(Call('显示', [Bin('/', Num('1'), Num('0'))])), False
+        if k < 0.49:
+            return ExprS(Call('显示', [Index(Arr([Num('1')]), Num('5'))])), False
+        if k < 0.59:
+            return ExprS(Call('显示', [Var('未定名')])), False
+        if k < 0.74:
+            return Throw('自定错', [Str('文%d' % self.fresh())]), True
+        if k < 0.87:
+            # a failing built-in method: the frame on top when it fails is a native one
+            return ExprS(Call('显示', [MCall(Num('100'), [('除', [Num('0')])])])), False
+        return ExprS(MCall(Num('1'), [('无此法', [])])), False
 
     def exc_program(self):
         rng = self.rng
@@ -646,20 +650,26 @@ class G:
         handler_at = rng.choice([0, 0] + list(range(1, depth + 1)) + [None])
         hcls = rng.choice(['异常', '异常', '自定错'])
         names = ['层%d' % i for i in range(1, depth + 1)]
+        fstmt, known_msg = self.fault_stmt()
         for i in range(depth, 0, -1):
-            fb = [Decl(['内%d' % i], Num(str(i))), ExprS(Call('显示', [Str('入%d' % i)]))]
+            # every level has a parameter 参 and a local 内i; the caller owns variables of the same names
+            fb = [Decl(['内%d' % i], Bin('+', Var('参'), Num(str(i)))), ExprS(Call('显示', [Str('入%d' % i), Var('参')]))]
             inner = []
             if i == fault_at:
-                inner.append(self.fault_stmt())
+                inner.append(fstmt)
             elif i < depth:
-                inner.append(ExprS(Call('显示', [Call(names[i], [])])))
-            if rng.random() < 0.4:
+                inner.append(ExprS(Call('显示', [Call(names[i], [Num(str(10 + i))])])))
+            k = rng.random()
+            if k < 0.25:
                 c = '计%d' % self.fresh()
                 fb.append(Decl([c], Num('0')))
                 fb.append(While(Bin('lt', Var(c), Num('2')),
                                 [ExprS(Assign(Var(c), Bin('+', Var(c), Num('1'))))] + inner))
-            elif rng.random() < 0.4:
+            elif k < 0.5:
                 fb.append(If(Var('真'), inner or [ExprS(Call('显示', [Num('0')]))]))
+            elif k < 0.75:
+                lv = '项%d' % self.fresh()
+                fb.append(Iter([lv], Arr([Num('1'), Num('2')]), [ExprS(Call('显示', [Var(lv)]))] + inner))
             else:
                 fb += inner
             fb.append(ExprS(Call('显示', [Str('出%d' % i)])))
@@ -667,25 +677,57 @@ class G:
             catches = []
             if handler_at == i:
                 hb = [ExprS(Call('显示', [Str('拦%d' % i)]))]
-                if hcls == '自定错' or rng.random() < 0.5:
+                if known_msg and rng.random() < 0.6:
                     hb.append(ExprS(Call('显示', [This('内容')])))
-                if rng.random() < 0.6:
+                k = rng.random()
+                if k < 0.4:
                     hb.append(Ret(Num(str(100 + i))))
+                elif k < 0.6:
+                    # no 输出: the body's value is 空 whatever the last statement yields
+                    hb.append(Decl(['次'], Num('1')))
+                    hb.append(ExprS(Assign(Var('次'), Bin('+', Var('次'), Num('1')))))
+                elif k < 0.75:
+                    hb.append(ExprS(Bin('+', Num('40'), Num(str(i)))))
+                elif k < 0.85:
+                    hb.append(ExprS(Call('递补', [])))
                 catches.append((hcls, hb))
                 if rng.random() < 0.3:
                     catches.insert(0, ('自定错' if hcls == '异常' else '异常', [ExprS(Call('显示', [Str('另')])), Ret(Num('-1'))]))
-            body.append(Func(names[i - 1], [], fb, catches))
-        main = [Decl(['外'], Num('7')), Decl(['得'], Call(names[0], [])), ExprS(Call('显示', [Var('得'), Var('外')]))]
-        # probes after the (possibly handled) exception: the callee's locals must be gone
-        main.append(ExprS(Call('显示', [Str('续')])))
+            body.append(Func(names[i - 1], ['参'], fb, catches))
+        body.append(Func('递补', [], [Ret(Num('77'))]))
+        # the caller owns names equal to the callees' parameter and locals
+        main = [Decl(['外'], Num('7')), Decl(['参'], Num('5'))]
         if rng.random() < 0.5:
+            main.append(Decl(['内1'], Num('50')))
+            own_inner = True
+        else:
+            own_inner = False
+        call = Decl(['得'], Call(names[0], [Num('3')]))
+        if rng.random() < 0.3:
+            main.append(Iter(['回'], Arr([Num('1'), Num('2')]), [ExprS(Call('显示', [Call(names[0], [Var('回')])]))]))
+        else:
+            main.append(call)
+            main.append(ExprS(Call('显示', [Var('得'), Var('外')])))
+        main.append(ExprS(Call('显示', [Str('续')])))
+        # after the (possibly handled) exception the caller's own names are what they were
+        main.append(ExprS(Assign(Var('参'), Bin('+', Var('参'), Num('1')))))
+        main.append(ExprS(Call('显示', [Var('参')])))
+        if own_inner:
+            main.append(ExprS(Assign(Var('内1'), Bin('+', Var('内1'), Num('1')))))
+            main.append(ExprS(Call('显示', [Var('内1')])))
+        else:
             main.append(Decl(['内1'], Num('99')))   # not a redeclaration: the callee's 内1 is gone
             main.append(ExprS(Call('显示', [Var('内1')])))
         if rng.random() < 0.4:
-            main.append(ExprS(Call('显示', [Call(names[0], [])])))
+            main.append(ExprS(Call('显示', [Call(names[0], [Num('4')])])))
         catches = []
         if handler_at == 0:
-            catches.append((hcls, [ExprS(Call('显示', [Str('主拦')])), Ret(Num('55'))]))
+            hb = [ExprS(Call('显示', [Str('主拦')]))]
+            if rng.random() < 0.6:
+                hb.append(Ret(Num('55')))
+            else:
+                hb.append(ExprS(Bin('+', Num('1'), Num('2'))))
+            catches.append((hcls, hb))
         return Program([], body + main, catches), {}
 
     # ---- collections through the interpreter (C12 program stream) ------------------------------------
